@@ -237,6 +237,7 @@ func c04Standard(size int, resetAddr uint32, secs []c04Sec, metaPos int) *c04Spe
 
 var c04ErrClasses = []struct{ sub, cls string }{
 	{"vcpus at launch is", "vcpus"},
+	{"unsupported SEV product", "product"},
 	{"firmware is too small: found size 0x", "fw-small"},
 	{"invalid firmware image without the GUIDed table", "no-footer"},
 	{"invalid GUIDed table size", "table-size"},
